@@ -124,6 +124,13 @@ theorem gen_args_rows :
         (Opt.ofCode (i / 8) ++ Opt.ofCode (i % 8))).code := by
   decide +kernel
 
+/-- the real `main()` (args_parse + both loops over names + read_name) with coder_run() replaced by a recorder, on 185 scenarios:
+    operands × list mode (none, --files=F, --files0=F, list on stdin) × list contents (incl. "-", "--help", empty entries,
+    missing final delimiter, NUL in a newline list) -/
+theorem gen_main_rows :
+    Gen.C19.mainRows.all (fun r => mainPlanCode r.1 r.2.1 r.2.2.1 == r.2.2.2) = true ∧ Gen.C19.mainRows.length = 185 := by
+  decide +kernel
+
 /-! ## naming: round trip -/
 
 /-- Exact form. If compressing `name` (format `fmt`, optional custom suffix) yields `t`, then decompressing `t` with the
@@ -585,6 +592,80 @@ theorem exit_status_lattice (events : List Status) (noWarn : Bool)
           · exact List.mem_cons_self
           · exact absurd List.mem_cons_self h1
       cases noWarn <;> simp [h1, h2, hw, finalStatus]
+
+/-! ## which names are files, which is standard input (main.c) -/
+
+/-- **files_list_name_never_stdin.** A name that comes from a `--files` / `--files0` list is always treated as a file,
+    whatever it looks like ("-", "--", "-c", "--help", …); only the command-line operand "-" means standard input. -/
+theorem files_list_name_never_stdin (listOnStdin : Bool) (name : Name) :
+    nameTarget .filesList listOnStdin name = .file name := rfl
+
+/-- … and that is the only way to get standard input (and not even that while the list itself is read from stdin). -/
+theorem stdin_iff (src : NameSource) (listOnStdin : Bool) (name : Name) :
+    nameTarget src listOnStdin name = .stdin ↔ (src = .cmdline ∧ name = dash ∧ listOnStdin = false) := by
+  cases src <;> cases listOnStdin <;> by_cases h : name = dash <;> simp [nameTarget, h]
+
+/-- `read_name()` never returns an empty name -/
+theorem readNames_nonempty (d : UInt8) (l : List UInt8) (acc : Name) : ∀ n ∈ (readNames d l acc).1, n ≠ [] := by
+  induction l generalizing acc with
+  | nil => intro n hn; simp [readNames] at hn
+  | cons b rest ih =>
+    intro n hn
+    unfold readNames at hn
+    by_cases hb : (b == d) = true
+    · rw [if_pos hb] at hn
+      by_cases ha : acc.isEmpty = true
+      · rw [if_pos ha] at hn; exact ih [] n hn
+      · rw [if_neg ha] at hn
+        rcases List.mem_cons.mp hn with rfl | h
+        · intro h; exact ha (by simp [h])
+        · exact ih [] n h
+    · rw [if_neg hb] at hn
+      by_cases h0 : (b == 0) = true
+      · rw [if_pos h0] at hn; simp at hn
+      · rw [if_neg h0] at hn; exact ih _ n hn
+
+theorem readNames_append (d : UInt8) (n rest : List UInt8) (acc : Name)
+    (hd : d ∉ n) (h0 : (0 : UInt8) ∉ n) :
+    readNames d (n ++ rest) acc = readNames d rest (acc ++ n) := by
+  induction n generalizing acc with
+  | nil => simp
+  | cons b t ih =>
+    have hb : (b == d) = false := by
+      simp only [List.mem_cons, not_or] at hd
+      simpa using fun h => hd.1 h.symm
+    have hz : (b == 0) = false := by
+      simp only [List.mem_cons, not_or] at h0
+      simpa using fun h => h0.1 h.symm
+    simp only [List.cons_append]
+    rw [readNames, hb, hz]
+    simp only [Bool.false_eq_true, if_false]
+    rw [ih _ (fun h => hd (List.mem_cons_of_mem _ h)) (fun h => h0 (List.mem_cons_of_mem _ h))]
+    simp
+
+/-- a well-formed list (every name non-empty, free of the delimiter and of NUL, each followed by the delimiter) is read back
+    exactly, whatever bytes the names consist of otherwise ("-", "--help", "-c", …) -/
+theorem readNames_join (d : UInt8) (names : List Name)
+    (h : ∀ n ∈ names, n ≠ [] ∧ d ∉ n ∧ (0 : UInt8) ∉ n) :
+    readNames d (names.flatMap fun n => n ++ [d]) [] = (names, false) := by
+  induction names with
+  | nil => simp [readNames]
+  | cons n rest ih =>
+    obtain ⟨hne, hd, h0⟩ := h n List.mem_cons_self
+    simp only [List.flatMap_cons, List.append_assoc]
+    rw [readNames_append d n _ [] hd h0]
+    simp only [List.nil_append, List.singleton_append]
+    rw [readNames]
+    have hemp : n.isEmpty = false := by cases n <;> simp_all
+    simp only [beq_self_eq_true, if_true, hemp, Bool.false_eq_true, if_false]
+    rw [ih (fun m hm => h m (List.mem_cons_of_mem _ hm))]
+
+/-- every entry of the list reaches `coder_run()` as a (non-empty) file name -/
+theorem list_entry_is_file (d : UInt8) (bytes : List UInt8) (onStdin : Bool) :
+    ∀ t ∈ (readNames d bytes []).1.map (nameTarget .filesList onStdin), ∃ n, n ≠ [] ∧ t = .file n := by
+  intro t ht
+  obtain ⟨n, hn, rfl⟩ := List.mem_map.mp ht
+  exact ⟨n, readNames_nonempty d bytes [] n hn, rfl⟩
 
 /-! ## how stdout mode is selected (args.c) -/
 
